@@ -708,12 +708,15 @@ def exhaustive_plans(k, mode="name", strategy="stop", roots=1):
     tree = [("out", "d", None), ("in", "d", None), ("in/x", "f", "X"), ("in/lnk", "l", "nowhere")] + [("in/" + n, "f", "C" + n) for n in names]
     inputs = ["in"]
     if roots == 2:
-        tree += [("in2", "d", None), ("in2/a", "f", "other-a"), ("in2/x", "f", "other-x")]
+        # a second input directory with the SAME relative names, the same plan and the same look-alikes: whatever is
+        # deferred in one root is deferred in the other too, and nothing may leak from one root into the other
+        tree += [("in2", "d", None), ("in2/x", "f", "other-X"), ("in2/lnk", "l", "nowhere")] + [("in2/" + n, "f", "other-C" + n) for n in names]
         inputs.append("in2")
     for dests in itertools.product(universe, repeat=k):
         for order in itertools.permutations(range(k)):
             plan = [{"dir": "in", "spelled": "in", "rel": names[i], "r": ("text", dests[i] if mode != "path" else dests[i])} for i in order]
             if roots == 2:
-                plan.insert(len(plan) // 2, {"dir": "in2", "spelled": "in2", "rel": "a", "r": ("text", "q")})
+                other = [{"dir": "in2", "spelled": "in2", "rel": names[i], "r": ("text", dests[i])} for i in order]
+                plan = [e for pair in zip(plan, other) for e in pair]      # interleaved: in, in2, in, in2, ...
             yield {"tree": list(tree), "inputs": list(inputs), "mode": mode, "strategy": strategy, "dry": False, "answers": [],
                    "fault": None, "plan": plan, "variant": FIXED_VARIANT}
